@@ -95,6 +95,102 @@ class RefArr(RefSeq):
         return RefSeq.apply(self, name, a)
 
 
+class RefEither:
+    """std::variant<L,R> (either) / std::optional<T> (maybe): a slot holds None, ('L', v) or ('R', v)"""
+
+    def __init__(self, is_maybe):
+        self.m = is_maybe
+        self.objs = [None] * NSLOTS
+
+    def apply(self, name, a):
+        o = self.objs
+        s = a[0]
+        if name in ('mk', 'mkL', 'mkR'):
+            if o[s] is not None: return False, ''
+            o[s] = (('R', 0) if self.m else ('L', 0)) if name == 'mk' else (name[2], a[1])
+        elif name == 'copy':
+            if o[s] is not None or o[a[1]] is None: return False, ''
+            o[s] = o[a[1]]
+        elif name == 'assign':
+            if o[s] is None or o[a[1]] is None: return False, ''
+            o[s] = o[a[1]]
+        elif name in ('setL', 'setR'):
+            if o[s] is None: return False, ''
+            o[s] = (name[3], a[1])
+        elif name == 'writeL':
+            if o[s] is None or o[s][0] != 'L': return False, ''
+            o[s] = ('L', a[1])
+        elif name == 'read':
+            if o[s] is None: return False, ''
+            return True, ' r=' + self.fmt(o[s])
+        elif name == 'destroy':
+            if o[s] is None: return False, ''
+            o[s] = None
+        else:
+            raise ValueError(name)
+        return True, ''
+
+    def fmt(self, x):
+        if x is None: return '-'
+        if self.m: return 'J%d' % x[1] if x[0] == 'L' else 'N'
+        return '%s%d' % x
+
+    def show(self):
+        return '/'.join(self.fmt(x) for x in self.objs)
+
+
+def oracle_either(ops, kind):
+    r = RefEither(kind == 'maybe')
+    out = []
+    for n, a in ops:
+        valid, note = r.apply(n, a)
+        out.append(r.show() + (note if valid else '!'))
+    return 'ok ' + '|'.join(out) + ' #  # leak=0 live=0 bad=0'
+
+
+def lifetime_classes(kind, ops):
+    """classifies a history over maybe/either of a NON-TRIVIAL left type by what happens to the lifetime of the
+    contained left object (std::optional / std::variant construct and destroy it; the union-based utl types do not):
+      'over'    a left object is constructed over one that is still alive (either::operator= switching to LEFT)
+      'assign'  a left value is assigned into an object in whose storage no left object was ever constructed
+      'held'    a left object is constructed at some point (it is never destroyed)"""
+    m = kind == 'maybe'
+    ref = RefEither(m)
+    made = [False] * NSLOTS      # a left object has been constructed in the slot's storage (and never destroyed)
+    cls = set()
+    for n, a in ops:
+        o = ref.objs
+        s = a[0]
+        before = list(o)
+        valid, _ = ref.apply(n, a)
+        if not valid:
+            continue
+        if n == 'mk': made[s] = not m
+        elif n == 'mkL': made[s] = True
+        elif n == 'mkR': made[s] = False
+        elif n == 'copy':
+            src = before[a[1]]
+            if src[0] == 'L':
+                if m: made[s] = True
+                else:
+                    made[s] = False; cls.add('assign')
+            else:
+                made[s] = False
+        elif n == 'assign':
+            src, dst = before[a[1]], before[s]
+            if src[0] == 'L':
+                if not m and dst[0] != 'L':
+                    if made[s]: cls.add('over')
+                    made[s] = True
+                if not made[s]: cls.add('assign')
+        elif n in ('setL', 'writeL'):
+            if not made[s]: cls.add('assign')
+        elif n == 'destroy':
+            made[s] = False
+        if any(made): cls.add('held')
+    return cls
+
+
 SVEC_CAP = 4
 ARR_N = 3
 
@@ -232,6 +328,21 @@ def in_domain(kind, ops):
     return False
 
 
+def in_domain_e(kind, elem, ops):
+    """maybe/either: value refinement holds for every history; the lifetime clauses only for trivial element types or
+    histories of a non-trivial type that never construct / assign a left value"""
+    if elem != 'tracked':
+        return True
+    return not any(n in ('mkL', 'setL', 'writeL') or (n == 'mk' and kind == 'either') for n, a in ops)
+
+
+def _lpred(kind, c):
+    def p(case):
+        k, e, ops = req_fields(case.req)
+        return k == kind and e == 'tracked' and c in lifetime_classes(kind, ops)
+    return p
+
+
 def _pred(kind, f):
     def p(case):
         k, e, ops = req_fields(case.req)
@@ -245,6 +356,11 @@ KNOWN_PREDICATES = {
     'vec_alias_push': _pred('vec', has_alias_push),
     'svec_oversize_ctor': _pred('svec', svec_oversize_ctor),
     'svec_grow_after_shrink': _pred('svec', svec_grow_after_shrink),
+    'maybe_nt_assign_unconstructed': _lpred('maybe', 'assign'),
+    'maybe_nt_never_destroyed': _lpred('maybe', 'held'),
+    'either_nt_construct_over_live': _lpred('either', 'over'),
+    'either_nt_assign_unconstructed': _lpred('either', 'assign'),
+    'either_nt_never_destroyed': _lpred('either', 'held'),
 }
 
 # ----------------------------------------------------------------------------------------------
@@ -383,6 +499,73 @@ def cases_for(kind, elem, ops, tags):
         yield Case(req, HARNESS, dom=False, oracle=None, model=True, nontrivial=nt, tags=['correspondence-only', 'kind=' + kind], cmp=cmp_answers)
 
 
+def ecases_for(kind, elem, ops, tags):
+    req = 'ehist kind=%s elem=%s ops=%s' % (kind, elem, fmt_ops(ops))
+    dom = in_domain_e(kind, elem, ops)
+    nt = len(ops) >= 3
+    yield Case(req, HARNESS, dom=dom, oracle=oracle_either(ops, kind), model=dom, nontrivial=nt,
+               tags=list(tags) + ['kind=' + kind, 'elem=' + elem, 'dom' if dom else 'off-dom'], cmp=cmp_answers)
+    if not dom:
+        yield Case(req, HARNESS, dom=False, oracle=None, model=True, nontrivial=nt, tags=['correspondence-only', 'kind=' + kind], cmp=cmp_answers)
+
+
+def enum_ehistories(L, kind):
+    m = kind == 'maybe'
+
+    def rec(ref, t, acc):
+        if t == L:
+            yield list(acc)
+            return
+        cands = []
+        for s in (0, 1):
+            v = 10 * (t + 1) + s
+            o = ref.objs[s]
+            other = ref.objs[1 - s] is not None
+            if o is None:
+                cands += [('mk', [s]), ('mkL', [s, v]), ('mkR', [s, 0 if m else v])]
+                if other: cands.append(('copy', [s, 1 - s]))
+            else:
+                cands += [('setL', [s, v]), ('setR', [s, 0 if m else v]), ('assign', [s, s]), ('destroy', [s])]
+                if o[0] == 'L': cands.append(('writeL', [s, v]))
+                if other: cands.append(('assign', [s, 1 - s]))
+        for n, a in cands:
+            r2 = RefEither(m)
+            r2.objs = list(ref.objs)
+            r2.apply(n, a)
+            acc.append((n, a))
+            yield from rec(r2, t + 1, acc)
+            acc.pop()
+    yield from rec(RefEither(m), 0, [])
+
+
+def rand_ehistory(rng, L, kind):
+    m = kind == 'maybe'
+    ref = RefEither(m)
+    ops = []
+    for t in range(L):
+        s = rng.randrange(2)
+        o = ref.objs[s]
+        v = rng.randrange(1, 99)
+        other = ref.objs[1 - s] is not None
+        c = rng.random()
+        if o is None:
+            if c < 0.3: op = ('mk', [s])
+            elif c < 0.6: op = ('mkL', [s, v])
+            elif c < 0.75: op = ('mkR', [s, 0 if m else v])
+            elif other: op = ('copy', [s, 1 - s])
+            else: op = ('mkL', [s, v])
+        else:
+            if c < 0.2: op = ('setL', [s, v])
+            elif c < 0.35: op = ('setR', [s, 0 if m else v])
+            elif c < 0.5: op = ('writeL', [s, v])          # skipped when RIGHT is active
+            elif c < 0.75: op = ('assign', [s, rng.choice([s, 1 - s])])
+            elif c < 0.85: op = ('read', [s])
+            else: op = ('destroy', [s])
+        ref.apply(*op)
+        ops.append(op)
+    return ops
+
+
 def harness_specs(tier):
     return [dict(name='h_c19', src='h_c19.cpp', flavour='fast')]
 
@@ -392,6 +575,19 @@ def gen(tier, rng):
     # known-finding witnesses first
     for kind, elem, ops in WITNESSES:
         yield from cases_for(kind, elem, parse_ops(ops), ['witness'])
+    for kind, elem, ops in EWITNESSES:
+        yield from ecases_for(kind, elem, parse_ops(ops), ['witness'])
+    # utl::maybe / utl::either -------------------------------------------------------------------
+    for kind in ('maybe', 'either'):
+        n2 = 0
+        for ops in enum_ehistories(4 if quick else 5, kind):
+            n2 += 1
+            yield from ecases_for(kind, ('int', 'tracked', 'double', 'tracked')[n2 % 4] if quick else 'tracked', ops, ['exhaustive-2obj'])
+            if not quick:
+                yield from ecases_for(kind, 'double' if n2 % 2 else 'int', ops, ['exhaustive-2obj'])
+        for k in range(200 if quick else 3000):
+            L = rng.choice([6, 7, 12, 30, 80, 200])
+            yield from ecases_for(kind, rng.choice(['int', 'double', 'tracked', 'tracked']), rand_ehistory(rng, L, kind), ['random'])
     # utl::vector -------------------------------------------------------------------------------
     for L in ([5] if quick else [5, 6]):
         for ops in enum_histories(L, two=False):
@@ -422,6 +618,16 @@ def gen(tier, rng):
         n2 += 1
         yield from cases_for('arr', 'double' if n2 % 2 else 'int', ops, ['exhaustive-2obj'])
 
+
+EWITNESSES = [
+    ('maybe', 'tracked', 'mkL:0:5;destroy:0'),
+    ('maybe', 'tracked', 'mk:0;setL:0:5'),
+    ('maybe', 'tracked', 'mkL:0:5;setR:0:0;destroy:0'),
+    ('either', 'tracked', 'mkL:0:5;destroy:0'),
+    ('either', 'tracked', 'mkR:0:3;setL:0:5'),
+    ('either', 'tracked', 'mkL:0:5;copy:1:0'),
+    ('either', 'tracked', 'mkL:0:5;setR:0:3;mkL:1:7;assign:0:1'),
+]
 
 WITNESSES = [
     ('vec', 'int', 'ctor:0;push:0:1;push:0:2;push:0:3;resize:0:1;resize:0:3'),
